@@ -163,24 +163,21 @@ theorem freshCopyOf_norefs {h0 h : Heap} (wf0 : WF h0) (e : Ext h0 h) {cd : Clas
 /-! ### The stages of `construct` -/
 
 /-- What a constructor stage guarantees: the heap is extended by a closed block, and every entry it contributes to
-    the instance `__dict__` is new — or is one of the two entries that hold a class-level list. -/
-structure StageOK (fix : Bool) (b : Nat) (h0 : Heap) (cd : ClassDesc) (h : Heap) (r : Heap × List (String × Val)) : Prop where
+    the instance `__dict__` is new (or a constructor argument, itself required to be new). -/
+structure StageOK (b : Nat) (h0 : Heap) (cd : ClassDesc) (h : Heap) (r : Heap × List (String × Val)) : Prop where
   ext : Ext h r.1
   blk : Blk b r.1
-  slots : ∀ k v, (k, v) ∈ r.2 → NewV b r.1 v ∨ (fix = false ∧ cd.base ≠ .container ∧
-    ((k = "endogenous" ∧ v = classAttr h0 cd "ENDOGENOUS") ∨ (k = "check" ∧ v = classAttr h0 cd "CHECK")))
+  slots : ∀ k v, (k, v) ∈ r.2 → NewV b r.1 v
 
-theorem thread_ok {fix : Bool} {b : Nat} {h0 : Heap} {cd : ClassDesc} {h : Heap} {f : Heap → Heap × List (String × Val)}
-    {acc : Heap × List (String × Val)} (A : StageOK fix b h0 cd h acc) (F : StageOK fix b h0 cd acc.1 (f acc.1)) :
-    StageOK fix b h0 cd h (thread f acc) := by
+theorem thread_ok {b : Nat} {h0 : Heap} {cd : ClassDesc} {h : Heap} {f : Heap → Heap × List (String × Val)}
+    {acc : Heap × List (String × Val)} (A : StageOK b h0 cd h acc) (F : StageOK b h0 cd acc.1 (f acc.1)) :
+    StageOK b h0 cd h (thread f acc) := by
   unfold thread
   refine ⟨A.ext.trans F.ext, F.blk, ?_⟩
   intro k v hm
   simp only [List.mem_append] at hm
   rcases hm with h1 | h1
-  · rcases A.slots k v h1 with h2 | h2
-    · exact Or.inl (h2.mono F.ext)
-    · exact Or.inr h2
+  · exact (A.slots k v h1).mono F.ext
   · exact F.slots k v h1
 
 theorem allocTraces_ok {b : Nat} : ∀ (n : Nat) (h : Heap), Blk b h → b ≤ h.length →
@@ -240,11 +237,11 @@ theorem allocVars_ok {b : Nat} (n : Nat) : ∀ (xs : List String) (h : Heap), Bl
     · exact V1 k v h2
 
 section stages
-variable {fix : Bool} {b : Nat} {h0 h : Heap} {cd : ClassDesc} (wf0 : WF h0) (e0 : Ext h0 h) (ok : ClassOK h0 cd)
+variable {b : Nat} {h0 h : Heap} {cd : ClassDesc} (wf0 : WF h0) (e0 : Ext h0 h) (ok : ClassOK h0 cd)
   (B : Blk b h) (hb : b ≤ h.length)
 include wf0 e0 ok B hb
 
-theorem stageAlias_ok : StageOK fix b h0 cd h (stageAlias cd h) := by
+theorem stageAlias_ok : StageOK b h0 cd h (stageAlias cd h) := by
   unfold stageAlias
   by_cases ha : cd.alias = true
   · simp only [ha, if_true]
@@ -258,26 +255,26 @@ theorem stageAlias_ok : StageOK fix b h0 cd h (stageAlias cd h) := by
     · intro k v hm
       simp at hm
       rcases hm with ⟨_, rfl⟩ | ⟨_, rfl⟩
-      · exact Or.inl (NewV.ref hb (by simp))
-      · exact Or.inl (NewV.ref (by omega) (by simp))
+      · exact (NewV.ref hb (by simp))
+      · exact (NewV.ref (by omega) (by simp))
   · simp only [ha]
     exact ⟨Ext.refl h, B, by intro k v hm; simp at hm⟩
 
-theorem stageLinker_ok (sub : Val) (hsub : NewV b h sub) : StageOK fix b h0 cd h (h, stageLinker cd sub) := by
+theorem stageLinker_ok (sub : Val) (hsub : NewV b h sub) : StageOK b h0 cd h (h, stageLinker cd sub) := by
   refine ⟨Ext.refl h, B, ?_⟩
   intro k v hm
   unfold stageLinker at hm
   by_cases hl : cd.base = .linker
   · simp [hl] at hm
     rcases hm with ⟨_, rfl⟩ | ⟨_, rfl⟩ | ⟨_, rfl⟩ | ⟨_, rfl⟩
-    · exact Or.inl hsub
-    · exact Or.inl (NewV.imm _ _ _)
-    · exact Or.inl (NewV.imm _ _ _)
-    · exact Or.inl (NewV.imm _ _ _)
+    · exact hsub
+    · exact (NewV.imm _ _ _)
+    · exact (NewV.imm _ _ _)
+    · exact (NewV.imm _ _ _)
   · simp [hl] at hm
 
 theorem stageContainer_ok (names : List String) (span : Val) (hspan : NewV b h span) :
-    StageOK fix b h0 cd h (stageContainer cd names span h) := by
+    StageOK b h0 cd h (stageContainer cd names span h) := by
   unfold stageContainer
   refine ⟨Ext.append _ _, ?_, ?_⟩
   · apply B.append
@@ -289,12 +286,12 @@ theorem stageContainer_ok (names : List String) (span : Val) (hspan : NewV b h s
   · intro k v hm
     simp at hm
     rcases hm with ⟨_, rfl⟩ | ⟨_, rfl⟩ | ⟨_, rfl⟩ | ⟨_, rfl⟩
-    · exact Or.inl (hspan.mono (Ext.append _ _))
-    · exact Or.inl (NewV.ref hb (by simp))
-    · exact Or.inl (NewV.imm _ _ _)
-    · exact Or.inl (NewV.ref (by omega) (by simp))
+    · exact (hspan.mono (Ext.append _ _))
+    · exact (NewV.ref hb (by simp))
+    · exact (NewV.imm _ _ _)
+    · exact (NewV.ref (by omega) (by simp))
 
-theorem stageInterface_ok (names : List String) (n : Nat) : StageOK fix b h0 cd h (stageInterface cd names n h) := by
+theorem stageInterface_ok (names : List String) (n : Nat) : StageOK b h0 cd h (stageInterface cd names n h) := by
   unfold stageInterface
   by_cases hc : cd.base = .container
   · simp only [hc, if_true]
@@ -315,61 +312,47 @@ theorem stageInterface_ok (names : List String) (n : Nat) : StageOK fix b h0 cd 
     simp only at e1 B1 V1 ⊢
     have hlen := e1.len
     simp at hlen
-    show StageOK fix b h0 cd h (h1, _)
+    show StageOK b h0 cd h (h1, _)
     refine ⟨(Ext.append _ _).trans e1, B1, ?_⟩
     intro k v hm
-    show NewV b h1 v ∨ _
+    show NewV b h1 v
     simp only [List.mem_append] at hm
     rcases hm with (h2 | h2) | h2
     · simp at h2
       rcases h2 with ⟨_, rfl⟩ | ⟨_, rfl⟩ | ⟨_, rfl⟩ | ⟨_, rfl⟩
-      · exact Or.inl (NewV.imm _ _ _)
-      · exact Or.inl (NewV.ref hb (by omega))
-      · exact Or.inl (NewV.ref (by omega) (by omega))
-      · exact Or.inl (NewV.ref (by omega) (by omega))
-    · exact Or.inl (V1 k v h2)
+      · exact (NewV.imm _ _ _)
+      · exact (NewV.ref hb (by omega))
+      · exact (NewV.ref (by omega) (by omega))
+      · exact (NewV.ref (by omega) (by omega))
+    · exact (V1 k v h2)
     · simp at h2
-      rcases h2 with ⟨_, rfl⟩ | ⟨_, rfl⟩ <;> exact Or.inl (NewV.imm _ _ _)
+      rcases h2 with ⟨_, rfl⟩ | ⟨_, rfl⟩ <;> exact (NewV.imm _ _ _)
 
-theorem stageModel_ok : StageOK fix b h0 cd h
-    (stageModel fix cd (classAttr h0 cd "ENDOGENOUS") (classAttr h0 cd "CHECK") h) := by
+theorem stageModel_ok : StageOK b h0 cd h
+    (stageModel cd (classAttr h0 cd "ENDOGENOUS") (classAttr h0 cd "CHECK") h) := by
   unfold stageModel
   by_cases hc : cd.base = .container
   · simp only [hc, if_true]
     exact ⟨Ext.refl h, B, by intro k v hm; simp at hm⟩
   · simp only [hc, if_false]
-    by_cases hf : fix = true
-    · simp only [hf, if_true]
-      refine ⟨Ext.append _ _, ?_, ?_⟩
-      · apply B.append
-        intro e he k c hm
-        simp at he
-        rcases he with rfl | rfl
-        · exact absurd hm (freshCopyOf_norefs' wf0 e0 ok _ _ k c)
-        · exact absurd hm (freshCopyOf_norefs' wf0 e0 ok _ _ k c)
-      · intro k v hm
-        simp only [List.mem_append] at hm
-        rcases hm with h2 | h2
-        · simp at h2
-          rcases h2 with ⟨_, rfl⟩ | ⟨_, rfl⟩
-          · exact Or.inl (NewV.ref hb (by simp))
-          · exact Or.inl (NewV.ref (by omega) (by simp))
-        · by_cases hm' : cd.base = .model
-          · simp [hm'] at h2; rcases h2 with ⟨_, rfl⟩; exact Or.inl (NewV.imm _ _ _)
-          · simp [hm'] at h2
-    · simp only [hf]
-      refine ⟨Ext.refl h, B, ?_⟩
-      intro k v hm
+    refine ⟨Ext.append _ _, ?_, ?_⟩
+    · apply B.append
+      intro e he k c hm
+      simp at he
+      rcases he with rfl | rfl
+      · exact absurd hm (freshCopyOf_norefs' wf0 e0 ok _ _ k c)
+      · exact absurd hm (freshCopyOf_norefs' wf0 e0 ok _ _ k c)
+    · intro k v hm
       rcases List.mem_append.mp hm with h2 | h2
       · simp at h2
-        rcases h2 with ⟨rfl, rfl⟩ | ⟨rfl, rfl⟩
-        · exact Or.inr ⟨by simpa using hf, hc, Or.inl ⟨rfl, rfl⟩⟩
-        · exact Or.inr ⟨by simpa using hf, hc, Or.inr ⟨rfl, rfl⟩⟩
+        rcases h2 with ⟨_, rfl⟩ | ⟨_, rfl⟩
+        · exact (NewV.ref hb (by simp))
+        · exact (NewV.ref (by omega) (by simp))
       · by_cases hm' : cd.base = .model
-        · simp [hm'] at h2; rcases h2 with ⟨_, rfl⟩; exact Or.inl (NewV.imm _ _ _)
+        · simp [hm'] at h2; rcases h2 with ⟨_, rfl⟩; exact (NewV.imm _ _ _)
         · simp [hm'] at h2
 
-theorem stageTracer_ok (n : Nat) : StageOK fix b h0 cd h (stageTracer cd n h) := by
+theorem stageTracer_ok (n : Nat) : StageOK b h0 cd h (stageTracer cd n h) := by
   unfold stageTracer
   by_cases ht : cd.tracer = true
   · simp only [ht, if_true]
@@ -387,19 +370,19 @@ theorem stageTracer_ok (n : Nat) : StageOK fix b h0 cd h (stageTracer cd n h) :=
     · intro k v hm
       simp at hm
       rcases hm with ⟨_, rfl⟩
-      exact Or.inl (NewV.ref (by omega) (by simp))
+      exact (NewV.ref (by omega) (by simp))
   · simp only [ht]
     exact ⟨Ext.refl h, B, by intro k v hm; simp at hm⟩
 
 end stages
 
 /-- `construct`: the heap grows by a closed block; every `__dict__` entry is new, a constructor argument, or one of
-    the two class-level lists (only when `fix = false`). -/
+    nothing else. -/
 theorem construct_ok {b : Nat} {h0 h : Heap} {cd : ClassDesc} (wf0 : WF h0) (e0 : Ext h0 h) (ok : ClassOK h0 cd)
-    (B : Blk b h) (hb : b ≤ h.length) (fix : Bool) (span sub : Val) (hspan : NewV b h span) (hsub : NewV b h sub) :
-    StageOK fix b h0 cd h (construct fix cd h span sub) := by
+    (B : Blk b h) (hb : b ≤ h.length) (span sub : Val) (hspan : NewV b h span) (hsub : NewV b h sub) :
+    StageOK b h0 cd h (construct cd h span sub) := by
   unfold construct
-  have S0 : StageOK fix b h0 cd h (h, []) := ⟨Ext.refl h, B, by intro k v hm; simp at hm⟩
+  have S0 : StageOK b h0 cd h (h, []) := ⟨Ext.refl h, B, by intro k v hm; simp at hm⟩
   have S1 := thread_ok S0 (stageAlias_ok wf0 e0 ok B hb)
   have l1 := S1.ext.len
   have S2 := thread_ok (f := fun h0' => (h0', stageLinker cd sub)) S1
@@ -412,7 +395,7 @@ theorem construct_ok {b : Nat} {h0 h : Heap} {cd : ClassDesc} (wf0 : WF h0) (e0 
     (stageInterface_ok wf0 (e0.trans S3.ext) ok S3.blk (by omega) (modelNames h cd) (spanLen h span))
   have l4 := S4.ext.len
   have S5 := thread_ok S4 (by
-    have := stageModel_ok (fix := fix) wf0 (e0.trans S4.ext) ok S4.blk (by omega)
+    have := stageModel_ok wf0 (e0.trans S4.ext) ok S4.blk (by omega)
     rwa [← classAttr_ext wf0 e0 ok, ← classAttr_ext wf0 e0 ok] at this)
   have l5 := S5.ext.len
   exact thread_ok S5 (stageTracer_ok wf0 (e0.trans S5.ext) ok S5.blk (by omega) (spanLen h span))
